@@ -31,6 +31,7 @@ type Mix struct {
 	Ceremony    bool
 	NoGodChange bool // leave ChangeGodAddressTx out of the mix
 	Contracts   int  // 1-in-N transactions are contract deployments/calls/terminations (0 = none)
+	OrphanKills bool // strangers try KillInviteeTx on invitees / candidates without inviter link (C05)
 }
 
 func (s *Scn) stateNonce(n *simnode.Node, a common.Address) (uint32, uint16) {
@@ -127,6 +128,17 @@ func (s *Scn) GenTx(view *simnode.Node, mix Mix) (*types.Transaction, string) {
 					if is == state.Invite || is == state.Candidate {
 						addr := inv.Address
 						add(cand{kind: "killinvitee", sender: a, to: &addr, aux: k})
+					}
+				}
+				if mix.OrphanKills {
+					// a stranger's attempt on an invitee or candidate that nobody is linked to as inviter (identities allocated
+					// in the genesis block, or whose inviter is gone)
+					for _, x := range actors {
+						if xs := st.GetIdentityState(x.Addr); x.Addr != a.Addr && (xs == state.Invite || xs == state.Candidate) && st.GetInviter(x.Addr) == nil {
+							addr := x.Addr
+							add(cand{kind: "killinvitee", sender: a, to: &addr})
+							break
+						}
 					}
 				}
 				if !vc.IsPool(a.Addr) && id.Delegatee() == nil && st.DelegationSwitch(a.Addr) == nil && id.State != state.Undefined && id.State != state.Killed {
